@@ -44,6 +44,7 @@ const TO_HOLDER0: u64 = 1_999_000; // channel value - push - 1000 sat fee
 const TO_CP0: u64 = 1_000_000;
 const CLTV_OUT: u32 = 500;
 const CLTV_IN: u32 = 600;
+const ENFORCE_EXCESS0: u64 = 5 * UNIT;
 const LATE_SECS: u64 = NOW_SECS + 3 * 24 * 3600;
 
 #[derive(Clone)]
@@ -52,6 +53,8 @@ struct Cfg {
     hashes: Vec<String>,
     fee_units: u64,
     pct: u64,
+    /// concurrency leg only: policy.enforce_balance = true, with some initial excess_amount
+    enforce: bool,
 }
 
 fn hash_byte(h: &str) -> u8 {
@@ -106,6 +109,7 @@ fn policy_of(cfg: &Cfg) -> lightning_signer::policy::simple_validator::SimplePol
         p.max_routing_fee_msat = cfg.fee_units * UNIT * 1000;
     }
     p.max_feerate_percentage = cfg.pct as u8;
+    p.enforce_balance = cfg.enforce;
     p
 }
 
@@ -133,6 +137,10 @@ impl World {
                 })
                 .expect("bring channel to commitment 1");
             ccs.push(cc);
+        }
+        if cfg.enforce {
+            // slack in the balance register, so that the deltas of the explored updates can be told apart
+            fx.node.get_state().excess_amount = ENFORCE_EXCESS0;
         }
         World { fx, cfg: cfg.clone(), ccs }
     }
@@ -288,7 +296,10 @@ impl World {
             }
             "Fulfill" => {
                 let p = preimage(r["h"].as_str().unwrap());
-                node.with_channel(&self.ccs[0].channel_id, |chan| {
+                // the preimage is reported through the channel named by "via" (default: the first one)
+                let via = r.get("via").and_then(|c| c.as_str()).map(|c| self.chan(c).channel_id.clone())
+                    .unwrap_or_else(|| self.ccs[0].channel_id.clone());
+                node.with_channel(&via, |chan| {
                     chan.htlcs_fulfilled(vec![p]);
                     Ok(())
                 })
@@ -429,6 +440,11 @@ impl World {
         o
     }
 
+    /// the node's balance bookkeeping that enforce_balance uses (outside Payments.tla's variables)
+    fn bookkeeping(&self) -> Value {
+        json!({"excess": self.fx.node.get_state().excess_amount})
+    }
+
     /// identity of a state: projection + the concrete ledger and commitment contents (commitment
     /// numbers, points and revocation secrets are left out: the ledger does not depend on them)
     fn key(&self, proj: &Value) -> String {
@@ -531,7 +547,8 @@ fn read_cfg(alpha: &Value) -> Cfg {
         l.sort();
         l
     };
-    Cfg { chans: strs(&alpha["chans"]), hashes: strs(&alpha["hashes"]), fee_units: arg_u64("fee", 0), pct: arg_u64("pct", 10) }
+    Cfg { chans: strs(&alpha["chans"]), hashes: strs(&alpha["hashes"]), fee_units: arg_u64("fee", 0), pct: arg_u64("pct", 10),
+          enforce: arg_u64("enforce", 0) == 1 }
 }
 
 fn explore() {
@@ -764,7 +781,7 @@ fn conc() {
             let r1 = w.apply(&reqs[order[0]]);
             let r2 = w.apply(&reqs[order[1]]);
             let (ra, rb) = if order[0] == 0 { (r1, r2) } else { (r2, r1) };
-            seqs.push(json!({"ra": strip(&ra), "rb": strip(&rb), "post": w.project()}));
+            seqs.push(json!({"ra": strip(&ra), "rb": strip(&rb), "post": w.project(), "postx": w.bookkeeping()}));
         }
         for held in 0..2usize {
             for k in 0..=nacq[held] {
@@ -775,6 +792,7 @@ fn conc() {
                 if oc2.stuck {
                     o.put(&json!({"case": ci, "held": held, "k": k, "stuck": true, "pre": pre, "a": reqs[0], "b": reqs[1],
                                   "ra": {"ok": false, "flag": -1}, "rb": {"ok": false, "flag": -1}, "post": pre,
+                                  "postx": {"excess": -1}, "enforce": cfg.enforce, "other_ran_through": false,
                                   "sab": seqs[0], "sba": seqs[1]}));
                     o.finish();
                     oc.finish();
@@ -784,7 +802,8 @@ fn conc() {
                 o.put(&json!({"case": ci, "held": held, "k": k, "stuck": false, "other_ran_through": oc2.other_ran_through,
                               "pre": pre, "a": reqs[0], "b": reqs[1],
                               "ra": strip(oc2.results[0].as_ref().unwrap()), "rb": strip(oc2.results[1].as_ref().unwrap()),
-                              "post": w.project(), "sab": seqs[0], "sba": seqs[1]}));
+                              "post": w.project(), "postx": w.bookkeeping(), "enforce": cfg.enforce,
+                              "sab": seqs[0], "sba": seqs[1]}));
                 runs += 1;
             }
         }
